@@ -322,9 +322,6 @@ func VString(v *ast.Value) string { panic("ghost") }
 //@ modifies-assumed fresh
 //@ end
 
-// C05 'a union with different members': two declarations of a union list the same members
-//@ define subsetOf(x []string, y []string) bool = forall(i, 0, len(x), exists(m, 0, len(y), y[m] == x[i]))
-
 //@ func mergeTypes
 //@ props C03 C05 C04
 //@ returns result, err
@@ -333,7 +330,6 @@ func VString(v *ast.Value) string { panic("ghost") }
 //@ ensures[keys-a] err == nil ==> forallT(k, string, has(a, k) ==> has(result, k)) @props C03
 //@ ensures[keys-b] err == nil ==> forallT(k, string, has(b, k) && !hasprefix(k, "__") ==> has(result, k)) @props C03
 //@ ensures[keys-only] err == nil ==> forallT(k, string, has(result, k) ==> has(a, k) || (has(b, k) && !hasprefix(k, "__"))) @props C03
-//@ ensures[union-clash-rejected] err == nil ==> forallT(k, string, has(a, k) && has(b, k) && !hasprefix(k, "__") && b[k].Name != "Node" && b[k].Kind == ast.Union ==> subsetOf(a[k].Types, b[k].Types) && subsetOf(b[k].Types, a[k].Types)) @using unions @props C05
 //@ ensures[kind-clash-rejected] err == nil ==> forallT(k, string, has(a, k) && has(b, k) && !hasprefix(k, "__") && b[k].Name != "Node" ==> a[k].Kind == b[k].Kind) @props C05
 // C04/C05: a root type shared by two services is merged by mergeRootObjects, which rejects a root field declared
 // twice; the merge of shared value types (complete copies allowed) must never be applied to Query, Mutation or Subscription
@@ -347,7 +343,6 @@ func VString(v *ast.Value) string { panic("ghost") }
 //@ loop 1 invariant[keys-b] forallT(k, string, seen(k) && !hasprefix(k, "__") ==> has(result, k)) @using keys-b, wf
 //@ loop 1 invariant[keys-only] forallT(k, string, has(result, k) ==> has(a, k) || (has(b, k) && seen(k) && !hasprefix(k, "__"))) @using keys-only, wf
 //@ loop 1 invariant[kinds] forallT(k, string, seen(k) && has(a, k) && !hasprefix(k, "__") && b[k].Name != "Node" ==> a[k].Kind == b[k].Kind) @using kinds, akeep, wf
-//@ loop 1 invariant[unions] forallT(k, string, seen(k) && has(a, k) && !hasprefix(k, "__") && b[k].Name != "Node" && b[k].Kind == ast.Union ==> subsetOf(a[k].Types, b[k].Types) && subsetOf(b[k].Types, a[k].Types)) @using unions, kinds, akeep, wf
 //@ loop 1 invariant[akeep] forallT(k, string, has(a, k) && !seen(k) ==> fresh(result[k]) && result[k].Kind == a[k].Kind && sameslice(result[k].Interfaces, a[k].Interfaces) && sameslice(result[k].Types, a[k].Types)) @using akeep, wf
 //@ end
 
